@@ -693,12 +693,13 @@ func claimsDiff(g view, p map[string]any, alg string) string {
 
 func TestCheck(t *testing.T) {
 	c := engine.Start(t, "C01")
-	c.SetRule("E1, part verify: for each interacting group {aud,azp} / {alg(10),at_hash(12),algs,mode,sig} / {at_hash,mode,sig} / {exp,iat,auth_time,offset,maxIAT,maxAge,phase} the full product, crossed with every <=k deviations of all other dimensions; each vector executed on rp.VerifyIDToken/VerifyTokens in a synctest bubble; part athash: full product alg(15) x at_hash(12) x access token(2) on rp.VerifyAccessToken; distinct = (oracle rule, observed outcome class)")
+	c.SetRule("E1, part verify: for each interacting group {aud,azp} / {alg(10),at_hash(12),algs,mode,sig} / {at_hash,mode,sig} / {exp,iat,auth_time,offset,maxIAT,maxAge,phase} the full product, crossed with every <=k deviations of all other dimensions; each vector executed on rp.VerifyIDToken/VerifyTokens in a synctest bubble; part siblings: the space of part verify plus 12 sibling-claim dimensions (client_id, jti, sid, scope, act, amr, events, nbf, c_hash, introspection members, UserInfo claims, unregistered-in-library claims), same reference predicate: every <=k deviations over the whole space, the full product {aud,azp,sibling,mode} for each identity-like sibling, {iat,maxIAT,nbf,mode} / {exp,offset,nbf,mode} / {auth_time,maxAge,nbf,mode}, {at_hash,c_hash,mode,sig}, each crossed with <=k deviations elsewhere; part athash: full product alg(15) x at_hash(12) x access token(2) on rp.VerifyAccessToken; distinct = (oracle rule, observed outcome class)")
 	c.Assume("go standard library and go-jose signature primitives are correct",
 		"clock-rounding band: |offset|+1s around each time boundary is judged Either (DESIGN §1.6)",
 		"absent iat without configured maximum is judged Either (DESIGN §1.6)",
 		"the hash belonging to a signature algorithm is the JWA one (xS256/xS384/xS512 -> SHA-256/384/512); EdDSA -> SHA-512 as documented in pkg/crypto/hash.go",
-		"library default of allowed algorithms is RS256, ES256, PS256 (oidc/verifier.go)")
+		"library default of allowed algorithms is RS256, ES256, PS256 (oidc/verifier.go)",
+		"claims the statement does not name (client_id, jti, sid, scope, act, amr, events, c_hash, UserInfo and introspection members, ...) never change the verdict; an nbf in the future is judged Either (RFC 7519 vs. the statement's list)")
 	kTime := engine.Pick(c, 1, 2)
 	kRest := engine.Pick(c, 2, 3)
 	kAlg := engine.Pick(c, 1, 2)
